@@ -28,7 +28,7 @@ Section Sys.
   Fixpoint shape (ops : list dop) : bool :=
     match ops with
     | [] => true
-    | DCall _ :: r | DSend _ :: r => shape r
+    | DCall _ :: r | DSend _ :: r | DBind _ :: r => shape r
     | DEvent _ :: r | DState _ :: r => no_call r
     end.
 
@@ -53,11 +53,16 @@ Section Sys.
   Lemma no_call_ops_of_d : forall d, no_call (flat_map ops_of_msg d) = true.
   Proof. induction d; [reflexivity|]. cbn [flat_map]. rewrite no_call_app, no_call_ops_of_msg. exact IHd. Qed.
 
+  Lemma shape_sends_binds : forall (ts : list titem) (rs : list reg) r, shape (map DSend ts ++ map DBind rs ++ r) = shape r.
+  Proof.
+    induction ts as [|t ts IH]; intros; cbn [map app shape]; [|apply IH].
+    induction rs as [|x rs IH]; cbn [map app shape]; auto.
+  Qed.
   Lemma shape_calls_app : forall l r, no_call r = true -> shape (ops_of_calls l ++ r) = true.
   Proof.
     induction l as [|[c h] l IH]; intros r H; [apply no_call_shape; assumption|].
     unfold ops_of_calls in *. cbn [flat_map fst snd app shape].
-    rewrite <- app_assoc. induction (h_sends h) as [|t ts IHt]; cbn [map app shape]; auto.
+    rewrite <- !app_assoc. rewrite shape_sends_binds. apply IH. assumption.
   Qed.
 
   Lemma pend_events_app : forall a b, pend_events (a ++ b) = pend_events a ++ pend_events b.
@@ -65,18 +70,23 @@ Section Sys.
   Lemma pend_calls_app : forall a b, pend_calls (a ++ b) = pend_calls a ++ pend_calls b.
   Proof. intros. apply flat_map_app. Qed.
 
+  Lemma pend_events_sb : forall (ts : list titem) (rs : list reg), pend_events (map DSend ts ++ map DBind rs) = [].
+  Proof. intros. rewrite pend_events_app. induction ts; cbn; [induction rs; cbn; auto|auto]. Qed.
+  Lemma pend_calls_sb : forall (ts : list titem) (rs : list reg), pend_calls (map DSend ts ++ map DBind rs) = [].
+  Proof. intros. rewrite pend_calls_app. induction ts; cbn; [induction rs; cbn; auto|auto]. Qed.
   Lemma pend_events_calls : forall l, pend_events (ops_of_calls l) = [].
   Proof.
     induction l as [|[c h] l IH]; [reflexivity|].
     unfold ops_of_calls in *. cbn [flat_map fst snd]. rewrite pend_events_app, IH, app_nil_r.
-    cbn. induction (h_sends h); cbn; auto.
+    change (DCall c :: map DSend (fb_items h) ++ map DBind (h_binds h)) with ([DCall c] ++ map DSend (fb_items h) ++ map DBind (h_binds h)).
+    rewrite pend_events_app, pend_events_sb. reflexivity.
   Qed.
   Lemma pend_calls_calls : forall l, pend_calls (ops_of_calls l) = map fst l.
   Proof.
     induction l as [|[c h] l IH]; [reflexivity|].
     unfold ops_of_calls in *. cbn [flat_map fst snd map]. rewrite pend_calls_app, IH.
-    cbn. f_equal. assert (E : pend_calls (map DSend (h_sends h)) = []) by (induction (h_sends h); cbn; auto).
-    unfold pend_calls in E. rewrite E. reflexivity.
+    change (DCall c :: map DSend (fb_items h) ++ map DBind (h_binds h)) with ([DCall c] ++ map DSend (fb_items h) ++ map DBind (h_binds h)).
+    rewrite pend_calls_app, pend_calls_sb. reflexivity.
   Qed.
   Lemma pend_events_msg : forall m, pend_events (ops_of_msg m) = m_events m.
   Proof.
@@ -192,49 +202,45 @@ Section Sys.
   Qed.
 
   (* ---------------------------------------------------------------- which maps a look-up saw *)
-  Definition binds_of (sched : list choice) : list reg :=
-    flat_map (fun c => match c with CBind k id h => [(k, id, h)] | _ => [] end) sched.
+  (* s_blog logs every registration in the order made, by handlers (DBind) and by other goroutines (CBind) *)
+  Definition Inv_snap (b0 : bindings) (s : sys) : Prop :=
+    s_b s = rev (s_blog s) ++ b0 /\
+    Forall (fun eb => exists n, snd eb = rev (firstn n (s_blog s)) ++ b0) (s_evlog s).
 
-  Definition Inv_snap (b0 : bindings) (regs : list reg) (s : sys) : Prop :=
-    s_b s = rev regs ++ b0 /\
-    Forall (fun eb => exists n, (n <= length regs)%nat /\ snd eb = rev (firstn n regs) ++ b0) (s_evlog s).
+  Lemma firstn_app_keep : forall {A} (l l' : list A) n, (n <= length l)%nat -> firstn n (l ++ l') = firstn n l.
+  Proof. intros. rewrite firstn_app. replace (n - length l)%nat with 0%nat by lia. cbn. apply app_nil_r. Qed.
 
-  Lemma step_inv_snap : forall b0 regs s c s', Inv_snap b0 regs s -> step s c = Some s' ->
-    Inv_snap b0 (regs ++ binds_of [c]) s'.
+  Lemma snap_weaken : forall b0 (log ext : list reg) (evlog : list (event * bindings)),
+    Forall (fun eb => exists n, snd eb = rev (firstn n log) ++ b0) evlog ->
+    Forall (fun eb => exists n, snd eb = rev (firstn n (log ++ ext)) ++ b0) evlog.
   Proof.
-    intros b0 regs s c s' [B F] H.
-    assert (W : forall regs', Forall (fun eb => exists n, (n <= length regs)%nat /\ snd eb = rev (firstn n regs) ++ b0) (s_evlog s) ->
-                Forall (fun eb => exists n, (n <= length (regs ++ regs'))%nat /\ snd eb = rev (firstn n (regs ++ regs')) ++ b0) (s_evlog s)).
-    { intros regs' F'. eapply Forall_impl; [|exact F']. intros eb (n & L & E). exists n. split; [rewrite app_length; lia|].
-      rewrite firstn_app. replace (n - length regs)%nat with 0%nat by lia. cbn. rewrite app_nil_r. exact E. }
-    unfold Inv_snap.
-    destruct c; step_cases H; cbn [s_b s_evlog binds_of flat_map app]; rewrite ?app_nil_r; try (split; assumption).
+    intros. eapply Forall_impl; [|eassumption]. intros eb [n E].
+    destruct (Nat.le_gt_cases n (length log)).
+    - exists n. rewrite firstn_app_keep by assumption. exact E.
+    - exists (length log). rewrite firstn_app_keep by lia. rewrite firstn_all. rewrite firstn_all2 in E by lia. exact E.
+  Qed.
+
+  Lemma step_inv_snap : forall b0 s c s', Inv_snap b0 s -> step s c = Some s' -> Inv_snap b0 s'.
+  Proof.
+    intros b0 s c s' [B F] H. unfold Inv_snap.
+    destruct c; step_cases H; cbn [s_b s_evlog s_blog]; try (split; assumption).
     - (* DEvent *) split; [assumption|]. apply Forall_app. split; [assumption|]. constructor; [|constructor].
-      exists (length regs). split; [lia|]. cbn [snd]. rewrite firstn_all. assumption.
-    - (* CBind *) split; [|apply W; assumption].
+      exists (length (s_blog s)). cbn [snd]. rewrite firstn_all. assumption.
+    - (* DBind *) split; [|apply snap_weaken; assumption].
+      rewrite rev_app_distr. cbn [rev app]. rewrite B. reflexivity.
+    - (* CBind *) split; [|apply snap_weaken; assumption].
       unfold bind. rewrite rev_app_distr. cbn [rev app]. rewrite B. reflexivity.
   Qed.
 
-  Lemma run_inv_snap : forall b0 sched regs s, Inv_snap b0 regs s -> Inv_snap b0 (regs ++ binds_of sched) (run s sched).
-  Proof.
-    induction sched as [|c r IH]; intros regs s I.
-    - cbn. rewrite app_nil_r. assumption.
-    - cbn [Gorwp.run]. change (c :: r) with ([c] ++ r). unfold binds_of at 1. rewrite flat_map_app. fold (binds_of [c]) (binds_of r).
-      rewrite app_assoc. destruct (step s c) as [s'|] eqn:E.
-      + apply IH. eapply step_inv_snap; eauto.
-      + (* a skipped choice is never a Bind (Bind is always enabled) *)
-        destruct c; cbn [binds_of flat_map app] in *; rewrite ?app_nil_r; try (apply IH; assumption).
-        unfold Gorwp.step in E. discriminate.
-  Qed.
-
-  (* every look-up saw the initial maps extended by a prefix of the Bind* calls of the schedule *)
+  (* every look-up saw the initial maps extended by a prefix of the registrations made so far - by handlers from
+     inside their callback and by other goroutines -: never a registration half-done, lost, or not yet made *)
   Theorem lookups_see_bind_prefixes : forall binary b ins sched,
     let s := run (sys0 binary b ins) sched in
-    Forall (fun eb => exists n, snd eb = rev (firstn n (binds_of sched)) ++ b) (s_evlog s).
+    s_b s = rev (s_blog s) ++ b /\
+    Forall (fun eb => exists n, snd eb = rev (firstn n (s_blog s)) ++ b) (s_evlog s).
   Proof.
-    intros. subst s.
-    pose proof (run_inv_snap b sched [] (sys0 binary b ins)) as [_ F]; [split; [reflexivity|constructor]|].
-    cbn [app] in F. eapply Forall_impl; [|exact F]. intros eb (n & _ & E). eauto.
+    intros. subst s. apply (run_inv (Inv_snap b)); [intros; eapply step_inv_snap; eauto|].
+    split; [reflexivity|constructor].
   Qed.
 
   Lemma flat_map_map : forall {A B C} (g : A -> B) (f : B -> list C) l, flat_map f (map g l) = flat_map (fun x => f (g x)) l.
@@ -242,41 +248,78 @@ Section Sys.
   Lemma flat_map_ext_Forall : forall {A B} (f g : A -> list B) l, Forall (fun x => f x = g x) l -> flat_map f l = flat_map g l.
   Proof. induction 1; [reflexivity|]. cbn. rewrite H, IHForall. reflexivity. Qed.
 
-  Lemma no_binds_firstn : forall sched n, binds_of sched = [] -> rev (firstn n (binds_of sched)) = [].
-  Proof. intros. rewrite H. destruct n; reflexivity. Qed.
+  (* ---------------------------------------------------------------- what the rest of the run will do *)
+  (* the dispatcher's remaining program, simulated with the maps threaded through it: the invocations it will
+     make, what it will send, the maps afterwards (no Bind* from other goroutines) *)
+  Definition sends_of_calls (l : list (callrec * handler)) : list titem := flat_map (fun ch => fb_items (snd ch)) l.
 
-  (* without Bind* calls in the schedule: the invocations are those demanded by the spec, a prefix in panel order *)
-  Theorem calls_prefix_of_spec : forall binary b ins sched,
-    binds_of sched = [] ->
-    let s := run (sys0 binary b ins) sched in
-    s_trace s ++ pend_calls (s_ops s) = flat_map (fun e => map fst (event_calls (in_force (rev b)) e)) (looked_up s) /\
-    exists rest, looked_up s ++ rest = all_events binary ins.
+  Fixpoint sim (b : bindings) (ops : list dop) : list callrec * list titem * bindings :=
+    match ops with
+    | [] => ([], [], b)
+    | DSend t :: r => let x := sim b r in (fst (fst x), t :: snd (fst x), snd x)
+    | DState _ :: r => sim b r
+    | DCall c :: r => let x := sim b r in (c :: fst (fst x), snd (fst x), snd x)
+    | DBind rg :: r => sim (rg :: b) r
+    | DEvent e :: r =>
+      let chs := calls_of_event b e in
+      let x := sim (apply_binds b (binds_of_calls chs)) r in
+      (map fst chs ++ fst (fst x), sends_of_calls chs ++ snd (fst x), snd x)
+    end.
+
+  Lemma sim_sends : forall ts b r, sim b (map DSend ts ++ r) = (fst (fst (sim b r)), ts ++ snd (fst (sim b r)), snd (sim b r)).
   Proof.
-    intros binary b ins sched NB s.
-    pose proof (exactly_once_all_schedules binary b ins sched) as [E T]. fold s in E, T.
-    pose proof (lookups_see_bind_prefixes binary b ins sched) as F. fold s in F.
-    split; [|eauto].
-    rewrite T. unfold calls_logged, looked_up. rewrite flat_map_map.
-    apply flat_map_ext_Forall. eapply Forall_impl; [|exact F].
-    intros [e b'] [n Hn]. cbn [fst snd] in *.
-    rewrite no_binds_firstn in Hn by assumption. cbn [app] in Hn. subst b'.
-    rewrite calls_of_event_spec. f_equal. apply event_calls_ext. intros. symmetry. apply in_force_rev.
+    induction ts as [|t ts IH]; intros; cbn [map app sim].
+    - destruct (sim b r) as [[c s0] b']. reflexivity.
+    - rewrite IH. reflexivity.
+  Qed.
+  Lemma sim_binds : forall rs b r, sim b (map DBind rs ++ r) = sim (rev rs ++ b) r.
+  Proof.
+    induction rs as [|x rs IH]; intros; cbn [map app sim rev]; [reflexivity|].
+    rewrite IH. rewrite <- app_assoc. reflexivity.
+  Qed.
+  Lemma apply_binds_app : forall b x y, apply_binds b (x ++ y) = apply_binds (apply_binds b x) y.
+  Proof. intros. unfold apply_binds. rewrite rev_app_distr, app_assoc. reflexivity. Qed.
+
+  Lemma sim_calls : forall l b r,
+    sim b (ops_of_calls l ++ r) =
+    (map fst l ++ fst (fst (sim (apply_binds b (binds_of_calls l)) r)),
+     sends_of_calls l ++ snd (fst (sim (apply_binds b (binds_of_calls l)) r)),
+     snd (sim (apply_binds b (binds_of_calls l)) r)).
+  Proof.
+    induction l as [|[c h] l IH]; intros.
+    - cbn. destruct (sim b r) as [[c s0] b']. reflexivity.
+    - unfold ops_of_calls, binds_of_calls, sends_of_calls in *. cbn [flat_map fst snd map].
+      rewrite <- !app_assoc. cbn [app sim]. rewrite <- !app_assoc. rewrite sim_sends, sim_binds. cbn [fst snd].
+      change (rev (h_binds h) ++ b) with (apply_binds b (h_binds h)).
+      rewrite IH. rewrite apply_binds_app. cbn [fst snd]. rewrite <- ?app_assoc. reflexivity.
   Qed.
 
-  (* ---------------------------------------------------------------- what the panel receives *)
-  Definition pend_sends (b : bindings) (ops : list dop) : list titem :=
-    flat_map (fun op => match op with
-                        | DSend t => [t]
-                        | DEvent e => flat_map (fun ch => h_sends (snd ch)) (calls_of_event b e)
-                        | _ => [] end) ops.
-  Definition sends_of_ds (b : bindings) (ds : list delivery) : list titem :=
-    flat_map (fun d => pend_sends b (flat_map ops_of_msg d)) ds.
+  Lemma sim_event : forall e b r, sim b (DEvent e :: r) = sim b (ops_of_calls (calls_of_event b e) ++ r).
+  Proof. intros. rewrite sim_calls. reflexivity. Qed.
+
+  Definition prog (ds : list delivery) : list dop := flat_map (fun d => flat_map ops_of_msg d) ds.
+  Lemma prog_app : forall a b, prog (a ++ b) = prog a ++ prog b.
+  Proof. intros. apply flat_map_app. Qed.
+  Lemma prog_cons : forall d l, prog (d :: l) = flat_map ops_of_msg d ++ prog l.
+  Proof. reflexivity. Qed.
+
+  Definition rest_of (s : sys) : list dop := s_ops s ++ prog (future_ds s).
   Definition fd := filter is_disp_item.
+  Lemma fd_app : forall a b, fd (a ++ b) = fd a ++ fd b.
+  Proof. intros. apply filter_app. Qed.
+  Lemma fd_nil : fd [] = [].
+  Proof. reflexivity. Qed.
+  Lemma fd_cons : forall t l, fd (t :: l) = if is_disp_item t then t :: fd l else fd l.
+  Proof. reflexivity. Qed.
 
-  Definition Inv_wire (b : bindings) (all : list titem) (s : sys) : Prop :=
-    s_b s = b /\
-    fd (s_wire s) ++ fd (s_to s) ++ fd (pend_sends b (s_ops s)) ++ fd (sends_of_ds b (future_ds s)) = all.
+  (* invocations made + invocations to come = constant; written + queued + to come = constant *)
+  Definition Inv_calls (C : list callrec) (s : sys) : Prop :=
+    s_trace s ++ fst (fst (sim (s_b s) (rest_of s))) = C.
+  Definition Inv_wire (S : list titem) (s : sys) : Prop :=
+    fd (s_wire s) ++ fd (s_to s) ++ fd (snd (fst (sim (s_b s) (rest_of s)))) = S.
 
+  (* schedules in which no OTHER goroutine registers handlers / sends acks or feedback *)
+  Definition nobind_choice (c : choice) : bool := match c with CBind _ _ _ => false | _ => true end.
   Definition quiet_choice (c : choice) : bool :=
     match c with
     | CBind _ _ _ => false
@@ -284,96 +327,173 @@ Section Sys.
     | _ => true
     end.
 
-  Lemma fd_app : forall a b, fd (a ++ b) = fd a ++ fd b.
-  Proof. intros. apply filter_app. Qed.
-  Lemma pend_sends_app : forall b x y, pend_sends b (x ++ y) = pend_sends b x ++ pend_sends b y.
-  Proof. intros. apply flat_map_app. Qed.
-  Lemma sends_of_ds_app : forall b x y, sends_of_ds b (x ++ y) = sends_of_ds b x ++ sends_of_ds b y.
-  Proof. intros. apply flat_map_app. Qed.
-  Lemma sends_of_ds_cons : forall b d l, sends_of_ds b (d :: l) = pend_sends b (flat_map ops_of_msg d) ++ sends_of_ds b l.
-  Proof. reflexivity. Qed.
-  Lemma sends_of_ds_nil : forall b, sends_of_ds b [] = [].
-  Proof. reflexivity. Qed.
-  Lemma fd_nil : fd [] = [].
-  Proof. reflexivity. Qed.
-  Lemma fd_cons : forall t l, fd (t :: l) = if is_disp_item t then t :: fd l else fd l.
-  Proof. reflexivity. Qed.
-  Lemma pend_sends_calls : forall b l, pend_sends b (ops_of_calls l) = flat_map (fun ch => h_sends (snd ch)) l.
+  (* how one step changes the simulated rest: a uniform description used by both invariants *)
+  Lemma rest_step : forall s c s', nobind_choice c = true -> step s c = Some s' ->
+    (s_trace s' = s_trace s /\ sim (s_b s') (rest_of s') = sim (s_b s) (rest_of s) /\
+     ((s_wire s' = s_wire s /\ s_to s' = s_to s) \/
+      (exists t, s_to s = t :: s_to s' /\ s_wire s' = s_wire s ++ [t]) \/
+      (s_to s' = s_to s /\ s_wire s' = s_wire s ++ [TPing]) \/
+      (exists t, c = CUser t /\ s_wire s' = s_wire s /\ s_to s' = s_to s ++ [t]))) \/
+    (exists t, s_trace s' = s_trace s /\ s_wire s' = s_wire s /\ s_to s' = s_to s ++ [t] /\
+               sim (s_b s) (rest_of s) = (fst (fst (sim (s_b s') (rest_of s'))), t :: snd (fst (sim (s_b s') (rest_of s'))), snd (sim (s_b s') (rest_of s')))) \/
+    (exists c0, s_trace s' = s_trace s ++ [c0] /\ s_wire s' = s_wire s /\ s_to s' = s_to s /\
+               sim (s_b s) (rest_of s) = (c0 :: fst (fst (sim (s_b s') (rest_of s'))), snd (fst (sim (s_b s') (rest_of s'))), snd (sim (s_b s') (rest_of s')))).
   Proof.
-    induction l as [|[c h] l IH]; [reflexivity|].
-    unfold ops_of_calls in *. cbn [flat_map fst snd]. rewrite pend_sends_app, IH. f_equal.
-    cbn. induction (h_sends h); cbn; congruence.
-  Qed.
-
-  Lemma ps_nil : forall b, pend_sends b [] = [].
-  Proof. reflexivity. Qed.
-  Lemma ps_send : forall b t l, pend_sends b (DSend t :: l) = t :: pend_sends b l.
-  Proof. reflexivity. Qed.
-  Lemma ps_state : forall b m l, pend_sends b (DState m :: l) = pend_sends b l.
-  Proof. reflexivity. Qed.
-  Lemma ps_call : forall b c l, pend_sends b (DCall c :: l) = pend_sends b l.
-  Proof. reflexivity. Qed.
-  Lemma ps_event : forall b e l, pend_sends b (DEvent e :: l) = flat_map (fun ch => h_sends (snd ch)) (calls_of_event b e) ++ pend_sends b l.
-  Proof. reflexivity. Qed.
-
-  Lemma step_inv_wire : forall b all s c s', quiet_choice c = true -> Inv_wire b all s -> step s c = Some s' -> Inv_wire b all s'.
-  Proof.
-    intros b all s c s' Q [B I] H. unfold Inv_wire, future_ds in *.
-    destruct c; try discriminate; step_cases H; cbn [s_b s_wire s_to s_ops s_from s_rpend s_rd s_in] in *;
-      (split; [first [assumption|reflexivity]|]); try exact I; rewrite <- I; clear I.
-    all: rewrite ?reader_run_cons;
+    intros s c s' Q H. unfold rest_of, future_ds.
+    destruct c; try discriminate; step_cases H; cbn [s_b s_trace s_wire s_to s_ops s_from s_rpend s_rd s_in];
+      rewrite ?reader_run_cons;
       repeat match goal with H : rstep _ _ _ _ = _ |- _ => rewrite H end;
-      cbn [fst snd];
-      rewrite ?ps_nil, ?ps_send, ?ps_state, ?ps_call, ?ps_event, ?pend_sends_app, ?pend_sends_calls,
-              ?sends_of_ds_app, ?sends_of_ds_cons, ?sends_of_ds_app, ?sends_of_ds_nil, ?fd_app;
-      rewrite ?B, ?fd_app, ?fd_nil, ?app_nil_r; rewrite <- ?app_assoc; try reflexivity.
-    - (* DSend *) rewrite !fd_cons, fd_nil. destruct (is_disp_item t); reflexivity.
-    - (* CWrite *) rewrite !fd_cons, fd_nil. destruct (is_disp_item t); reflexivity.
-    - (* CUser *) cbn [quiet_choice] in Q. apply negb_true_iff in Q. rewrite fd_cons, Q, fd_nil. reflexivity.
+      cbn [fst snd app].
+    (* CRead x3 *)
+    1-3: left; repeat split; auto.
+    - (* CPush *) left. rewrite <- !app_assoc. cbn [app]. repeat split; auto.
+    - (* CRExit *) left. repeat split; auto.
+    - (* CTake *) left. cbn [app]. rewrite prog_cons. repeat split; auto.
+    - (* DSend *) right. left. exists t. cbn [app sim]. repeat split; auto.
+    - (* DState *) left. cbn [app sim]. repeat split; auto.
+    - (* DEvent *) left. rewrite <- app_assoc. cbn [app]. rewrite sim_event. repeat split; auto.
+    - (* DCall *) right. right. exists c. cbn [app sim]. repeat split; auto.
+    - (* DBind *) left. cbn [app sim]. repeat split; auto.
+    - (* CDExit *) left. repeat split; auto.
+    - (* CWrite *) left. repeat split; auto. right. left. exists t. split; auto.
+    - (* CTick *) left. repeat split; auto.
+    - (* CWExit *) left. repeat split; auto.
+    - (* CUser *) left. repeat split; auto. right. right. right. exists t. repeat split; auto.
+    - (* CCancel *) left. repeat split; auto.
   Qed.
 
-  Lemma pend_sends_msg : forall b m, pend_sends b (ops_of_msg m) = snd (msg_demands (in_force (rev b)) m).
+  Lemma step_inv_calls : forall C s c s', nobind_choice c = true -> Inv_calls C s -> step s c = Some s' -> Inv_calls C s'.
   Proof.
-    intros. unfold ops_of_msg, msg_demands. cbn [snd]. rewrite pend_sends_app. f_equal; [destruct (m_flow m =? 1); reflexivity|].
-    cbn [pend_sends flat_map app].
-    rewrite flat_map_flat_map.
-    induction (m_events m) as [|e es IH]; [reflexivity|].
-    cbn [map flat_map]. rewrite IH. f_equal.
-    rewrite calls_of_event_spec. f_equal. apply event_calls_ext. intros. symmetry. apply in_force_rev.
+    intros C s c s' Q I H. unfold Inv_calls in *.
+    destruct (rest_step s c s' Q H) as [(T & E & _)|[(t & T & _ & _ & E)|(c0 & T & _ & _ & E)]].
+    - rewrite T, E. exact I.
+    - rewrite E in I. cbn [fst] in I. rewrite T. exact I.
+    - rewrite E in I. cbn [fst] in I. rewrite T, <- app_assoc. exact I.
   Qed.
 
-  (* what the spec demands the panel to receive for a list of deliveries, registrations fixed *)
-  Definition demanded_sends (b : bindings) (ds : list delivery) : list titem :=
-    flat_map (fun d => snd (delivery_demands (in_force (rev b)) d)) ds.
+  Lemma quiet_nobind : forall c, quiet_choice c = true -> nobind_choice c = true.
+  Proof. destruct c; cbn; auto. Qed.
 
-  Lemma sends_of_ds_spec : forall b ds, sends_of_ds b ds = demanded_sends b ds.
+  Lemma step_inv_wire : forall S s c s', quiet_choice c = true -> Inv_wire S s -> step s c = Some s' -> Inv_wire S s'.
   Proof.
-    intros. unfold sends_of_ds, demanded_sends. apply flat_map_ext. intros d.
-    induction d as [|m r IH]; [reflexivity|].
-    cbn [flat_map]. rewrite pend_sends_app, IH, pend_sends_msg, delivery_demands_cons. reflexivity.
+    intros S s c s' Q I H. unfold Inv_wire in *.
+    destruct (rest_step s c s' (quiet_nobind c Q) H) as [(T & E & W)|[(t & T & W1 & W2 & E)|(c0 & T & W1 & W2 & E)]].
+    - rewrite E. destruct W as [(W1 & W2)|[(t & W1 & W2)|[(W1 & W2)|(t & -> & W1 & W2)]]].
+      + rewrite W1, W2. exact I.
+      + rewrite W1 in I. rewrite W2, fd_app, <- app_assoc. rewrite fd_cons in I. rewrite fd_cons, fd_nil.
+        destruct (is_disp_item t); exact I.
+      + rewrite W1, W2, fd_app. cbn. rewrite app_nil_r. exact I.
+      + cbn [quiet_choice] in Q. apply negb_true_iff in Q. rewrite W1, W2, fd_app, fd_cons, Q, fd_nil, app_nil_r. exact I.
+    - rewrite E in I. cbn [fst snd] in I. rewrite W1, W2, fd_app, <- app_assoc. rewrite fd_cons in I. rewrite fd_cons, fd_nil.
+      destruct (is_disp_item t); exact I.
+    - rewrite E in I. cbn [fst snd] in I. rewrite W1, W2. exact I.
   Qed.
 
-  (* For every schedule without Bind* calls and without other goroutines sending acks/feedback: the acks and
-     feedback written so far, then those queued, then those still to come, are exactly what the spec demands
-     for the deliveries of the script, in order. *)
+  (* the simulated program of a list of deliveries IS what the spec demands for them *)
+  Lemma sim_app : forall x y b,
+    sim b (x ++ y) = (fst (fst (sim b x)) ++ fst (fst (sim (snd (sim b x)) y)),
+                      snd (fst (sim b x)) ++ snd (fst (sim (snd (sim b x)) y)),
+                      snd (sim (snd (sim b x)) y)).
+  Proof.
+    induction x as [|op x IH]; intros.
+    - cbn. destruct (sim b y) as [[c s0] b']. reflexivity.
+    - destruct op; cbn [app sim]; rewrite IH; cbn [fst snd]; rewrite <- ?app_assoc; reflexivity.
+  Qed.
+
+  Lemma sim_events : forall evs b,
+    fst (fst (sim b (map DEvent evs))) = fst (fst (events_demands (rev b) evs)) /\
+    snd (fst (sim b (map DEvent evs))) = snd (fst (events_demands (rev b) evs)) /\
+    rev (snd (sim b (map DEvent evs))) = snd (events_demands (rev b) evs).
+  Proof.
+    induction evs as [|e r IH]; intros; [cbn; auto|].
+    cbn [map sim]. rewrite events_demands_cons. cbn zeta. cbn [fst snd].
+    rewrite <- calls_of_event_force.
+    specialize (IH (apply_binds b (binds_of_calls (calls_of_event b e)))). rewrite rev_apply_binds in IH.
+    unfold binds_of_calls, sends_of_calls in *. destruct IH as (H1 & H2 & H3). rewrite H1, H2, H3. auto.
+  Qed.
+
+  Lemma sim_msg : forall m b,
+    fst (fst (sim b (ops_of_msg m))) = fst (fst (msg_demands (rev b) m)) /\
+    snd (fst (sim b (ops_of_msg m))) = snd (fst (msg_demands (rev b) m)) /\
+    rev (snd (sim b (ops_of_msg m))) = snd (msg_demands (rev b) m).
+  Proof.
+    intros. unfold ops_of_msg, msg_demands.
+    pose proof (sim_events (m_events m) b) as (H1 & H2 & H3).
+    destruct (events_demands (rev b) (m_events m)) as [[c s0] regs']. cbn [fst snd] in *.
+    destruct (m_flow m =? 1); cbn [app sim fst snd]; rewrite ?H1, ?H2, ?H3; auto.
+  Qed.
+
+  Lemma sim_delivery : forall d b,
+    fst (fst (sim b (flat_map ops_of_msg d))) = fst (fst (delivery_demands (rev b) d)) /\
+    snd (fst (sim b (flat_map ops_of_msg d))) = snd (fst (delivery_demands (rev b) d)) /\
+    rev (snd (sim b (flat_map ops_of_msg d))) = snd (delivery_demands (rev b) d).
+  Proof.
+    induction d as [|m r IH]; intros; [cbn; auto|].
+    cbn [flat_map]. rewrite sim_app, delivery_demands_cons. cbn [fst snd].
+    pose proof (sim_msg m b) as (H1 & H2 & H3).
+    specialize (IH (snd (sim b (ops_of_msg m)))). rewrite H3 in IH. destruct IH as (I1 & I2 & I3).
+    rewrite H1, H2, I1, I2, I3. auto.
+  Qed.
+
+  Lemma demands_cons_deliver : forall regs d r,
+    demands regs (HDeliver d :: r) =
+    (fst (fst (delivery_demands regs d)) ++ fst (fst (demands (snd (delivery_demands regs d)) r)),
+     snd (fst (delivery_demands regs d)) ++ snd (fst (demands (snd (delivery_demands regs d)) r)),
+     snd (demands (snd (delivery_demands regs d)) r)).
+  Proof.
+    intros. cbn [demands]. destruct (delivery_demands regs d) as [[c1 s1] regs1]. cbn [fst snd].
+    destruct (demands regs1 r) as [[c2 s2] regs2]. reflexivity.
+  Qed.
+
+  Lemma sim_prog : forall ds b,
+    fst (fst (sim b (prog ds))) = fst (fst (demands (rev b) (map HDeliver ds))) /\
+    snd (fst (sim b (prog ds))) = snd (fst (demands (rev b) (map HDeliver ds))).
+  Proof.
+    induction ds as [|d r IH]; intros; [cbn; auto|].
+    rewrite prog_cons, sim_app. cbn [map]. rewrite demands_cons_deliver. cbn [fst snd].
+    pose proof (sim_delivery d b) as (H1 & H2 & H3).
+    specialize (IH (snd (sim b (flat_map ops_of_msg d)))). rewrite H3 in IH. destruct IH as (I1 & I2).
+    rewrite H1, H2, I1, I2. auto.
+  Qed.
+
+  Lemma run_inv_sel : forall (sel : choice -> bool) (P : sys -> Prop),
+    (forall s c s', sel c = true -> P s -> step s c = Some s' -> P s') ->
+    forall sched s, forallb sel sched = true -> P s -> P (run s sched).
+  Proof.
+    intros sel P HP. induction sched as [|c r IH]; intros s Q H; [assumption|].
+    cbn [forallb] in Q. apply andb_prop in Q as [Q1 Q2].
+    cbn [Gorwp.run]. destruct (step s c) as [s'|] eqn:E; [apply IH; [assumption|eapply HP; eauto]|apply IH; assumption].
+  Qed.
+
+  Definition all_ds (binary : bool) (ins : list rin) : list delivery := snd (reader_run (rinit binary) ins).
+
+  (* For every schedule in which no other goroutine calls Bind* (handlers may, from inside their callbacks):
+     the invocations made so far, followed by the ones the rest of the run will make, are exactly the
+     invocations the spec demands for the script's deliveries - in panel order, each event against the
+     registrations in force when it is reached. *)
+  Theorem calls_all_schedules : forall binary b ins sched,
+    forallb nobind_choice sched = true ->
+    let s := run (sys0 binary b ins) sched in
+    s_trace s ++ fst (fst (sim (s_b s) (rest_of s))) = fst (fst (demands (rev b) (map HDeliver (all_ds binary ins)))).
+  Proof.
+    intros binary b ins sched Q s. subst s.
+    apply (run_inv_sel nobind_choice (Inv_calls _)); [intros; eapply step_inv_calls; eauto|assumption|].
+    unfold Inv_calls, rest_of, future_ds. cbn [sys0 s_trace s_b s_ops s_from s_rpend s_rd s_in app].
+    apply (proj1 (sim_prog _ b)).
+  Qed.
+
+  (* the same for what the panel receives from the dispatcher (acks and handler feedback, in order), when
+     moreover no other goroutine sends acks / feedback at the same time *)
   Theorem wire_all_schedules : forall binary b ins sched,
     forallb quiet_choice sched = true ->
     let s := run (sys0 binary b ins) sched in
-    fd (s_wire s) ++ fd (s_to s) ++ fd (pend_sends b (s_ops s)) ++ fd (demanded_sends b (future_ds s)) =
-    fd (demanded_sends b (snd (reader_run (rinit binary) ins))).
+    fd (s_wire s) ++ fd (s_to s) ++ fd (snd (fst (sim (s_b s) (rest_of s)))) =
+    fd (snd (fst (demands (rev b) (map HDeliver (all_ds binary ins))))).
   Proof.
     intros binary b ins sched Q s. subst s.
-    assert (G : forall sched s, forallb quiet_choice sched = true ->
-                Inv_wire b (fd (demanded_sends b (snd (reader_run (rinit binary) ins)))) s ->
-                Inv_wire b (fd (demanded_sends b (snd (reader_run (rinit binary) ins)))) (run s sched)).
-    { induction sched0 as [|c r IH]; intros s Q0 I; [assumption|].
-      cbn [forallb] in Q0. apply andb_prop in Q0 as [Q1 Q2].
-      cbn [Gorwp.run]. destruct (step s c) as [s'|] eqn:E; [|apply IH; assumption].
-      apply IH; [assumption|]. eapply step_inv_wire; eauto. }
-    destruct (G sched (sys0 binary b ins) Q) as [_ I].
-    - split; [reflexivity|]. unfold future_ds. cbn [sys0 s_wire s_to s_ops s_from s_rpend s_rd s_in fd filter pend_sends flat_map app].
-      rewrite sends_of_ds_spec. reflexivity.
-    - rewrite sends_of_ds_spec in I. exact I.
+    apply (run_inv_sel quiet_choice (Inv_wire _)); [intros; eapply step_inv_wire; eauto|assumption|].
+    unfold Inv_wire, rest_of, future_ds. cbn [sys0 s_wire s_to s_b s_ops s_from s_rpend s_rd s_in app fd filter].
+    rewrite (proj2 (sim_prog _ b)). reflexivity.
   Qed.
 
   (* ---------------------------------------------------------------- no deadlock *)
@@ -418,50 +538,84 @@ Section Sys.
   Qed.
 
   (* ---------------------------------------------------------------- progress measure *)
+  (* the work still to be done, with the maps threaded through the remaining program exactly as [sim] does:
+     a send costs 2 (put + write), everything else 1, a queued delivery 1 (take) or 2 (push + take) extra *)
   Definition w_calls (l : list (callrec * handler)) : nat :=
-    fold_right (fun ch acc => (1 + 2 * length (h_sends (snd ch)) + acc)%nat) 0%nat l.
-  Definition w_op (b : bindings) (op : dop) : nat :=
-    match op with
-    | DSend _ => 2
-    | DState _ => 1
-    | DCall _ => 1
-    | DEvent e => 1 + w_calls (calls_of_event b e)
-    end.
-  Definition w_ops (b : bindings) (ops : list dop) : nat := fold_right (fun op acc => (w_op b op + acc)%nat) 0%nat ops.
-  Definition w_d (b : bindings) (d : delivery) : nat := w_ops b (flat_map ops_of_msg d).
-  Definition w_q (extra : nat) (b : bindings) (q : list delivery) : nat :=
-    fold_right (fun d acc => (extra + w_d b d + acc)%nat) 0%nat q.
-  Definition measure (s : sys) : nat :=
-    (length (s_to s) + w_ops (s_b s) (s_ops s) + w_q 1 (s_b s) (s_from s) + w_q 2 (s_b s) (s_rpend s))%nat.
+    fold_right (fun ch acc => (1 + 2 * length (fb_items (snd ch)) + length (h_binds (snd ch)) + acc)%nat) 0%nat l.
 
-  Lemma w_ops_cons : forall b op l, w_ops b (op :: l) = (w_op b op + w_ops b l)%nat.
-  Proof. reflexivity. Qed.
-  Lemma w_ops_nil : forall b, w_ops b [] = 0%nat.
-  Proof. reflexivity. Qed.
-  Lemma w_q_cons : forall x b d l, w_q x b (d :: l) = (x + w_d b d + w_q x b l)%nat.
-  Proof. reflexivity. Qed.
-  Lemma w_q_nil : forall x b, w_q x b [] = 0%nat.
-  Proof. reflexivity. Qed.
-  Lemma w_ops_app : forall b x y, w_ops b (x ++ y) = (w_ops b x + w_ops b y)%nat.
-  Proof. unfold w_ops. induction x; intros; cbn [app fold_right]; [reflexivity|]. rewrite IHx. lia. Qed.
-  Lemma w_ops_calls : forall b l, w_ops b (ops_of_calls l) = w_calls l.
+  Fixpoint wsim (b : bindings) (ops : list dop) : nat * bindings :=
+    match ops with
+    | [] => (0%nat, b)
+    | DSend _ :: r => let x := wsim b r in ((2 + fst x)%nat, snd x)
+    | DState _ :: r => let x := wsim b r in ((1 + fst x)%nat, snd x)
+    | DCall _ :: r => let x := wsim b r in ((1 + fst x)%nat, snd x)
+    | DBind rg :: r => let x := wsim (rg :: b) r in ((1 + fst x)%nat, snd x)
+    | DEvent e :: r =>
+      let chs := calls_of_event b e in
+      let x := wsim (apply_binds b (binds_of_calls chs)) r in ((1 + w_calls chs + fst x)%nat, snd x)
+    end.
+
+  Fixpoint wq (extra : nat) (b : bindings) (q : list delivery) : nat * bindings :=
+    match q with
+    | [] => (0%nat, b)
+    | d :: r => let x := wsim b (flat_map ops_of_msg d) in let y := wq extra (snd x) r in ((extra + fst x + fst y)%nat, snd y)
+    end.
+
+  Definition measure (s : sys) : nat :=
+    let x := wsim (s_b s) (s_ops s) in
+    let y := wq 1 (snd x) (s_from s) in
+    let z := wq 2 (snd y) (s_rpend s) in
+    (length (s_to s) + fst x + fst y + fst z)%nat.
+
+  Lemma wsim_sends : forall (ts : list titem) b r, wsim b (map DSend ts ++ r) = ((2 * length ts + fst (wsim b r))%nat, snd (wsim b r)).
   Proof.
-    induction l as [|[c h] l IH]; [reflexivity|].
-    unfold ops_of_calls in *. cbn [flat_map fst snd]. rewrite w_ops_app, IH. cbn [w_calls fold_right snd].
-    assert (E : w_ops b (DCall c :: map DSend (h_sends h)) = (1 + 2 * length (h_sends h))%nat).
-    { cbn. induction (h_sends h); cbn in *; lia. }
-    rewrite E. unfold w_calls. lia.
+    induction ts as [|t ts IH]; intros; cbn [map app wsim length].
+    - destruct (wsim b r). reflexivity.
+    - rewrite IH. cbn [fst snd]. f_equal. lia.
   Qed.
-  Lemma w_q_app : forall x b a c, w_q x b (a ++ c) = (w_q x b a + w_q x b c)%nat.
-  Proof. unfold w_q. induction a; intros; cbn [app fold_right]; [reflexivity|]. rewrite IHa. lia. Qed.
+  Lemma wsim_binds : forall (rs : list reg) b r, wsim b (map DBind rs ++ r) = ((length rs + fst (wsim (rev rs ++ b) r))%nat, snd (wsim (rev rs ++ b) r)).
+  Proof.
+    induction rs as [|x rs IH]; intros; cbn [map app wsim length rev].
+    - destruct (wsim b r). reflexivity.
+    - rewrite IH. cbn [fst snd]. rewrite <- app_assoc. cbn [app]. f_equal.
+  Qed.
+  Lemma wsim_calls : forall l b r,
+    wsim b (ops_of_calls l ++ r) =
+    ((w_calls l + fst (wsim (apply_binds b (binds_of_calls l)) r))%nat, snd (wsim (apply_binds b (binds_of_calls l)) r)).
+  Proof.
+    induction l as [|[c h] l IH]; intros.
+    - cbn. destruct (wsim b r). reflexivity.
+    - unfold ops_of_calls, binds_of_calls in *. cbn [flat_map fst snd].
+      rewrite <- !app_assoc. cbn [app wsim]. rewrite <- !app_assoc. rewrite wsim_sends, wsim_binds. cbn [fst snd].
+      change (rev (h_binds h) ++ b) with (apply_binds b (h_binds h)).
+      rewrite IH. rewrite apply_binds_app. cbn [fst snd].
+      assert (E : w_calls ((c, h) :: l) = (1 + 2 * length (fb_items h) + length (h_binds h) + w_calls l)%nat) by reflexivity.
+      rewrite E. f_equal. rewrite !Nat.add_assoc. reflexivity.
+  Qed.
+  Lemma wq_app : forall x a c b,
+    wq x b (a ++ c) = ((fst (wq x b a) + fst (wq x (snd (wq x b a)) c))%nat, snd (wq x (snd (wq x b a)) c)).
+  Proof.
+    induction a as [|d a IH]; intros; cbn [app wq].
+    - cbn [fst snd]. destruct (wq x b c). reflexivity.
+    - rewrite IH. cbn [fst snd]. f_equal. lia.
+  Qed.
+  Lemma wq_snd : forall x y q b, snd (wq x b q) = snd (wq y b q).
+  Proof. induction q as [|d q IH]; intros; cbn [wq snd]; [reflexivity|apply IH]. Qed.
 
   (* every step of the three goroutines themselves strictly decreases the measure *)
   Theorem internal_step_decreases : forall s c s', In c internal -> step s c = Some s' -> (measure s' < measure s)%nat.
   Proof.
     intros s c s' IN H. unfold measure.
     destruct IN as [<-|[<-|[<-|[<-|[]]]]]; step_cases H; cbn [s_to s_ops s_from s_rpend s_b].
-    all: rewrite ?app_length, ?w_ops_app, ?w_ops_calls, ?w_q_app, ?w_ops_cons, ?w_q_cons, ?w_q_nil, ?w_ops_nil;
-      unfold w_d; cbn [length w_op]; lia.
+    - (* CWrite *) cbn [length]. lia.
+    - (* DSend *) rewrite app_length. cbn [length wsim fst snd]. lia.
+    - (* DState *) cbn [wsim fst snd]. lia.
+    - (* DEvent *) rewrite wsim_calls. cbn [wsim fst snd]. lia.
+    - (* DBind *) cbn [wsim fst snd]. lia.
+    - (* DCall *) cbn [wsim fst snd]. lia.
+    - (* CTake *) cbn [wsim wq fst snd]. lia.
+    - (* CPush *) rewrite wq_app. cbn [wq fst snd].
+      lia.
   Qed.
 
   (* hence: the goroutines, left to themselves under ANY order, stop after at most [measure s] steps ... *)
@@ -548,36 +702,34 @@ Section Sys.
   Qed.
 
   (* ---------------------------------------------------------------- complete runs, end to end *)
-  Lemma delivery_demands_calls : forall who d,
-    fst (delivery_demands who d) = flat_map (fun e => map fst (event_calls who e)) (flat_map m_events d).
+  Lemma rest_of_done : forall s, quiescent s -> s_in s = [] -> rest_of s = [].
   Proof.
-    induction d as [|m r IH]; [reflexivity|].
-    rewrite delivery_demands_cons. cbn [fst flat_map]. rewrite flat_map_app, IH. f_equal.
-    unfold msg_demands. cbn [fst]. apply map_fst_flat_map.
+    intros s (T & O & F & R) IN. unfold rest_of, future_ds. rewrite O, F, R, IN. reflexivity.
   Qed.
 
-  Lemma demands_deliveries : forall regs ds,
-    fst (demands regs (map HDeliver ds)) = flat_map (fun e => map fst (event_calls (in_force regs) e)) (evs_of_ds ds).
-  Proof.
-    induction ds as [|d r IH]; [reflexivity|].
-    cbn [map demands]. destruct (delivery_demands (in_force regs) d) as [c1 s1] eqn:D.
-    destruct (demands regs (map HDeliver r)) as [c2 s2] eqn:E. cbn [fst] in *.
-    rewrite evs_of_ds_cons, flat_map_app, <- IH. f_equal.
-    rewrite <- delivery_demands_calls, D. reflexivity.
-  Qed.
-
-  (* a run without Bind* calls that has consumed its input and come to rest has invoked exactly the handlers the
-     spec demands for the deliveries of the script, in order *)
+  (* a run in which no other goroutine calls Bind* (handlers may), that has consumed its input and come to rest,
+     has invoked exactly the handlers the spec demands for the deliveries of the script, in order *)
   Theorem complete_run_calls : forall binary b ins sched,
-    binds_of sched = [] ->
+    forallb nobind_choice sched = true ->
     let s := run (sys0 binary b ins) sched in
     quiescent s -> s_in s = [] ->
-    s_trace s = fst (demands (rev b) (map HDeliver (snd (reader_run (rinit binary) ins)))).
+    s_trace s = fst (fst (demands (rev b) (map HDeliver (all_ds binary ins)))).
   Proof.
-    intros binary b ins sched NB s (T & O & F & R) IN.
-    pose proof (calls_prefix_of_spec binary b ins sched NB) as [C _]. fold s in C.
-    pose proof (exactly_once_all_schedules binary b ins sched) as [E _]. fold s in E.
-    unfold future_ds in E. rewrite O, F, R, IN in *. cbn [pend_events pend_calls flat_map app Gorwp.reader_run snd evs_of_ds] in *.
-    rewrite !app_nil_r in *. rewrite C, E. unfold all_events. symmetry. apply demands_deliveries.
+    intros binary b ins sched Q. cbn zeta. intros QS IN.
+    pose proof (calls_all_schedules binary b ins sched Q) as C. cbn zeta in C.
+    rewrite (rest_of_done _ QS IN) in C. cbn [sim fst] in C. rewrite app_nil_r in C. exact C.
+  Qed.
+
+  (* ... and the panel has received exactly the acks and feedback the spec demands, in order *)
+  Theorem complete_run_wire : forall binary b ins sched,
+    forallb quiet_choice sched = true ->
+    let s := run (sys0 binary b ins) sched in
+    quiescent s -> s_in s = [] ->
+    fd (s_wire s) = fd (snd (fst (demands (rev b) (map HDeliver (all_ds binary ins))))).
+  Proof.
+    intros binary b ins sched Q. cbn zeta. intros QS IN.
+    pose proof (wire_all_schedules binary b ins sched Q) as W. cbn zeta in W.
+    rewrite (rest_of_done _ QS IN) in W. destruct QS as (T & _). rewrite T in W.
+    cbn [sim fst snd fd filter app] in W. rewrite app_nil_r in W. exact W.
   Qed.
 End Sys.
